@@ -35,6 +35,11 @@ func init() {
 		Old: "precedence < p.peekPrecedence()", New: "precedence <= p.peekPrecedence()", Expect: "R3"})
 	addMutant(Mutant{Name: "infix-prec-minus-one", Prop: "C06", File: "parser/parser.go",
 		Old: "expression.Right = p.parseExpression(precedence)", New: "expression.Right = p.parseExpression(precedence - 1)", Expect: "R3"})
+	addMutant(Mutant{Name: "map-key-converted-across-kinds", Prop: "C11", File: "compiler.go",
+		Old: "			if kv.Kind() != keyT.Kind() || !kv.Type().ConvertibleTo(keyT) {", New: "			if !kv.Type().ConvertibleTo(keyT) {", Expect: "R8"})
+	addMutant(Mutant{Name: "argument-vector-kept-in-evaluator", Prop: "C12", File: "compiler.go",
+		Old: "	args := []reflect.Value{}\n", New: "	args := argvScratch[:0]\n	defer func() { argvScratch = args[:0] }()\n",
+		Edits: []Edit{{"compiler.go", "func (c *compiler) compile() (string, error) {", "var argvScratch []reflect.Value\n\nfunc (c *compiler) compile() (string, error) {"}}, Expect: "R8"})
 	addMutant(Mutant{Name: "infix-level-read-after-advance", Prop: "C06", File: "parser/parser.go",
 		Old: "	precedence := p.curPrecedence()\n	p.nextToken()\n	expression.Right = p.parseExpression(precedence)", New: "	p.nextToken()\n	precedence := p.curPrecedence()\n	expression.Right = p.parseExpression(precedence)", Expect: "R3"})
 	addMutant(Mutant{Name: "infix-level-of-peek-token", Prop: "C06", File: "parser/parser.go",
